@@ -39,6 +39,11 @@ type Fact struct {
 	OkTrue EffSet // effects gained when this bool is proven true
 }
 
+type memoKey struct {
+	base Sym
+	fld  *types.Var
+}
+
 type vkey struct {
 	d int32
 	v ssa.Value
@@ -75,6 +80,7 @@ type State struct {
 	lk     LockState
 	iter   EffSet // effects since the last loop-iteration mark (ITER queries)
 	lenpos map[vkey]tri // is len(param) > 0 ? (correlates loops over the same slice)
+	memo   map[memoKey]Sym // value last loaded from (object, field): repeated loads of a field see the same abstract value
 	User   uint64       // scratch bits owned by the rule listener (part of the state identity)
 	steps  int
 	mask   EffSet
@@ -84,6 +90,7 @@ type State struct {
 type Valuation struct {
 	Cache, Async tri // triUnk: explore both
 	FileExists   tri // result of the isFileAndExist predicate
+	IsCorrupted  tri // result of errors.Is(err, ErrIndexCorrupted)
 }
 
 func (v Valuation) String() string {
@@ -99,6 +106,9 @@ func (v Valuation) String() string {
 	s := "cache=" + f(v.Cache) + ",async=" + f(v.Async)
 	if v.FileExists != triUnk {
 		s += ",fileExists=" + f(v.FileExists)
+	}
+	if v.IsCorrupted != triUnk {
+		s += ",isCorrupted=" + f(v.IsCorrupted)
 	}
 	return s
 }
@@ -131,6 +141,7 @@ type Event struct {
 	Struct *types.Named
 	Field  *types.Var
 	Write  bool
+	BaseNil tri // nil-ness of the pointer the field was reached through
 }
 
 type Listener interface {
@@ -161,6 +172,7 @@ type Explorer struct {
 	visited  map[uint64]struct{}
 	ids      map[ssa.Value]int
 	fnids    map[*ssa.Function]int
+	fldids   map[*types.Var]int
 	live     map[*ssa.Function]*liveInfo
 	hbuf     []byte
 	ebuf     []struct {
@@ -229,6 +241,12 @@ func (st *State) clone() *State {
 			n.lenpos[k] = v
 		}
 	}
+	if len(st.memo) > 0 {
+		n.memo = make(map[memoKey]Sym, len(st.memo))
+		for k, v := range st.memo {
+			n.memo[k] = v
+		}
+	}
 	return n
 }
 
@@ -247,6 +265,13 @@ func (st *State) add(e Eff) {
 	case EFsWSchema:
 		st.must = st.must.Minus(effs(EDirty))
 		st.may = st.may.Minus(effs(EDirty))
+	case EFsRename:
+		st.must = st.must.Minus(effs(EUnrenamed))
+		st.may = st.may.Minus(effs(EUnrenamed))
+	}
+	if (e == EFsWSchema || e == EFsWObj) && st.mask.Has(EUnrenamed) {
+		st.must = st.must.With(EUnrenamed)
+		st.may = st.may.With(EUnrenamed)
 	}
 	if !st.mask.Has(e) {
 		return
@@ -444,12 +469,29 @@ func (x *Explorer) prune(st *State) {
 			delete(st.cells, k)
 		}
 	}
-	if len(st.facts) > 4*(len(st.env)+len(st.cells))+64 {
+	if len(st.memo) > 0 {
+		live := map[Sym]bool{}
+		for _, s := range st.env {
+			live[s] = true
+		}
+		for _, s := range st.cells {
+			live[s] = true
+		}
+		for k := range st.memo {
+			if !live[k.base] {
+				delete(st.memo, k)
+			}
+		}
+	}
+	if len(st.facts) > 4*(len(st.env)+len(st.cells)+len(st.memo))+64 {
 		ref := map[vkey]bool{}
 		for _, s := range st.env {
 			ref[vkey{s.d, s.v}] = true
 		}
 		for _, s := range st.cells {
+			ref[vkey{s.d, s.v}] = true
+		}
+		for _, s := range st.memo {
 			ref[vkey{s.d, s.v}] = true
 		}
 		for s := range st.facts {
@@ -471,6 +513,18 @@ func (x *Explorer) vid(v ssa.Value) int {
 	}
 	id := len(x.ids) + 1
 	x.ids[v] = id
+	return id
+}
+
+func (x *Explorer) fldid(f *types.Var) int {
+	if x.fldids == nil {
+		x.fldids = map[*types.Var]int{}
+	}
+	if id, ok := x.fldids[f]; ok {
+		return id
+	}
+	id := len(x.fldids) + 1
+	x.fldids[f] = id
 	return id
 }
 
@@ -567,6 +621,27 @@ func (x *Explorer) hash(st *State) uint64 {
 		})
 		for _, e := range lp {
 			buf = putInt(buf, -3, e[0], e[1], e[2])
+		}
+	}
+	if len(st.memo) > 0 {
+		type me struct {
+			a [5]int
+			f Fact
+		}
+		var ms []me
+		for k, v := range st.memo {
+			ms = append(ms, me{[5]int{int(k.base.d), x.vid(k.base.v), int(k.base.i), x.fldid(k.fld), x.vid(v.v)*8 + int(v.d)}, st.facts[v]})
+		}
+		sort.Slice(ms, func(i, j int) bool {
+			for q := 0; q < 5; q++ {
+				if ms[i].a[q] != ms[j].a[q] {
+					return ms[i].a[q] < ms[j].a[q]
+				}
+			}
+			return false
+		})
+		for _, m := range ms {
+			buf = putInt(buf, -5, m.a[0], m.a[1], m.a[2], m.a[3], m.a[4], int(m.f.Nil), int(m.f.Bool), int(m.f.Tags))
 		}
 	}
 	x.hbuf = buf
